@@ -97,16 +97,33 @@ structure Outcome where
   snapshot : Bool
 deriving Repr, DecidableEq
 
-/-- `runBackup` + the exit-code switch of `main`: `targetsSkipped` = `collectTargets` returned
-    `ErrInvalidSourceData`; `archErr` = `arch.Snapshot` returned an error (fatal callback result,
-    repository error); `rootNodes` = number of nodes in the root tree (0: "snapshot is empty");
-    `errors` = number of `arch.Error` callback invocations. -/
-def runBackup (targetsSkipped archErr : Bool) (rootNodes errors : Nat) : Outcome :=
+/-- what `runBackup` returns to `main` -/
+inductive CmdErr | nil | invalidSourceData | fatal
+deriving DecidableEq, Repr
+
+/-- the exit-code switch of `main` (cmd/restic/main.go) for the errors `runBackup` can return:
+    `err == nil` → 0, `err == ErrInvalidSourceData` → 3, a fatal error falls through to `default` → 1.
+    Pinned against the regenerated switch by `Restic.Props.C55.exit_table`. -/
+def exitCode : CmdErr → Nat
+  | .nil => 0
+  | .invalidSourceData => 3
+  | .fatal => 1
+
+/-- `runBackup`: `targetsSkipped` = `collectTargets` returned `ErrInvalidSourceData`; `archErr` =
+    `arch.Snapshot` returned an error (fatal callback result, repository error); `rootNodes` = number
+    of nodes in the root tree (0: "snapshot is empty"); `errors` = number of `arch.Error` callback
+    invocations. Result: the error handed to `main` and whether a snapshot was saved. -/
+def runBackupErr (targetsSkipped archErr : Bool) (rootNodes errors : Nat) : CmdErr × Bool :=
   let success := !targetsSkipped
   let success := if errors > 0 then false else success   -- arch.Error = func { success = false; … }
-  if archErr || rootNodes == 0 then ⟨1, false⟩            -- errors.Fatalf("unable to save snapshot: …")
-  else if !success then ⟨3, true⟩                         -- ErrInvalidSourceData -> exit 3
-  else ⟨0, true⟩
+  if archErr || rootNodes == 0 then (.fatal, false)       -- errors.Fatalf("unable to save snapshot: …")
+  else if !success then (.invalidSourceData, true)        -- return ErrInvalidSourceData
+  else (.nil, true)
+
+/-- `runBackup` + `main` -/
+def runBackup (targetsSkipped archErr : Bool) (rootNodes errors : Nat) : Outcome :=
+  let r := runBackupErr targetsSkipped archErr rootNodes errors
+  ⟨exitCode r.1, r.2⟩
 
 /-- the whole command on one target directory. With an absolute target path the root tree of the
     snapshot holds the chain of parent directories (`saveTree` / `dirPathToNode`), so it is never
